@@ -98,7 +98,12 @@ fn check_marginalize<const D: usize>(shape: [usize; D], axes: &[usize]) {
         step = step.marginalize(&[Axis(a - shift)]).unwrap();
         done.push(a);
     }
-    assert!(step == m, "joint removal equals one-at-a-time removal");
+    assert!(step.dimensions() == m.dimensions(), "joint removal equals one-at-a-time removal (axes)");
+    let mut q = 0;
+    while q < kept_n {
+        assert!(step.inner().as_slice()[q] == m.inner().as_slice()[q], "joint removal equals one-at-a-time removal");
+        q += 1;
+    }
 }
 
 #[kani::proof]
